@@ -140,6 +140,23 @@ pub fn get_input_list(
     }
 }
 
+/// Obtain the sample names to delete, either from the command line
+/// or one per line from a file
+pub fn get_delete_names(file_list: &Option<String>, names: &Option<Vec<String>>) -> Vec<String> {
+    match file_list {
+        Some(files) => {
+            let f = File::open(files).expect("Unable to open file_list");
+            BufReader::new(f)
+                .lines()
+                .map(|line| line.expect("Unable to read line in file_list"))
+                .map(|line| line.trim().to_string())
+                .filter(|line| !line.is_empty())
+                .collect()
+        }
+        None => names.as_ref().unwrap().clone(),
+    }
+}
+
 /// Checks if any input files are fastq
 pub fn any_fastq(files: &[InputFastx]) -> bool {
     files.iter().any(|file| file.2.is_some())
